@@ -442,7 +442,11 @@ func genHsReq(r *gen.R, u upCfg) *hsReq {
 	}
 	q.set("Origin", ol, oc)
 	// offers
-	switch r.Intn(9) {
+	switch r.Intn(10) {
+	case 9:
+		// elements with interior whitespace are not tokens; whatever the server makes of the offer,
+		// it must not select a name that is no comma-separated element of it
+		q.set("Sec-Websocket-Protocol", []string{[]string{"chat v2", "mqtt, wamp\tchat", "super chat, x y", "v2.json chat"}[r.Intn(4)]}, cUnclear)
 	case 7:
 		// subprotocol names are case-sensitive tokens: these match nothing the server supports
 		q.set("Sec-Websocket-Protocol", []string{[]string{"Chat", "CHAT, SuperChat", "V2.JSON, X", "cHAT"}[r.Intn(4)]}, cValid)
